@@ -134,7 +134,22 @@ def check(ctx, rep):
             x = x[2]
         if util.is_call(x, PO) and tuple(strip(a) for a in x[2]) == (("param", 1), ("param", 2)):
             dec = (bb, (bb, f_t) if neg else (bb, t_t), (bb, t_t) if neg else (bb, f_t))
-    if dec is None:
+    vs = util.value_select(ctx, se, se.ret) if dec is None else None
+    if vs is not None:
+        # combinator spelling: is_pair_of(..).then(|| HeaderCrypto{..}).ok_or(UnsplitCryptoError{})
+        c, x, e = vs
+        c = strip(c)
+        good = util.is_call(c, PO) and tuple(strip(a) for a in c[2]) == (("param", 1), ("param", 2))
+        e = strip(e)
+        good = good and e[0] == "agg" and e[2] == "error::UnsplitCryptoError"
+        rep.check(good, "unsplit", U, "gate", "Ok only when is_pair_of, Err only otherwise (value-level select)", "unsplit's result is not decided by is_pair_of alone: %s" % show(se.ret, maxdepth=4), body.loc())
+        comb = "vanilla_header::HeaderCrypto"
+        ei = headers.half_field(ctx, comb, "vanilla_header::encrypt::EncrypterHalf")
+        di = headers.half_field(ctx, comb, "vanilla_header::decrypt::DecrypterHalf")
+        x = strip(x)
+        good = x[0] == "agg" and x[2] == comb and strip(x[4][ei]) == ("param", 1) and strip(x[4][di]) == ("param", 2)
+        rep.check(good, "unsplit", U, "identity", "Ok(HeaderCrypto{encrypt: self, decrypt: decrypter}) unchanged", "re-joined object is not built from the two halves unchanged", body.loc())
+    elif dec is None:
         rep.violation("unsplit", U, "decision", "no branch on is_pair_of(self, decrypter)", body.loc())
     else:
         sw, pair_edge, nopair_edge = dec
